@@ -134,8 +134,13 @@ def _state(self, remote, kind):
     raise ValueError(kind)
 
 
+SETSTATE_HOOK = [None]    # harness-owned rendezvous: lets several threads sit inside their loads() at the same time
+
+
 def _setstate(self, state):
     LOG.append(('setstate', id(self), type(self).__name__, None))
+    if SETSTATE_HOOK[0] is not None:
+        SETSTATE_HOOK[0](self)
     if isinstance(state, dict):
         self.__dict__.update(state)
     elif state is not None:
@@ -455,7 +460,7 @@ def canon(obj, twin_names=False):
         elif isinstance(o, tuple):   # namedtuple
             d = ('ntuple', cname(t), [visit(x) for x in o])
         else:
-            d = ('o', cname(t), repr(o))
+            d = ('o', cname(t), re.sub(r'0x[0-9a-fA-F]+', '0x?', repr(o)))
         out[idx] = d
         return ('ref', idx)
 
